@@ -24,6 +24,7 @@ type c08Prog struct {
 	appendsFirst bool
 	wideIdx      bool // some index expression is not of type i32
 	nested       bool // array of arrays / array in a struct field
+	directed     string
 }
 
 func c08Generate(rng *rand.Rand, withStrings bool) c08Prog {
@@ -324,6 +325,56 @@ func c08GenerateNested(rng *rand.Rand) c08Prog {
 	return out
 }
 
+// c08Directed: one program per (index type, extreme value of that type, operation): an opaque index
+// of type T holding the type's own boundary values (and, for the wide types, values around 2^31 and
+// 2^32 that alias a valid position when truncated to 32 bits) reads a dynamic array, writes it, or
+// indexes a string of length 4. Every one of these is out of range and must panic after "before".
+func c08Directed() []c08Prog {
+	lit := func(t *gen.Type, v int64) *gen.Lit { return &gen.Lit{T: t, I: gen.Norm(t, v)} }
+	const L = 4
+	type tv struct {
+		t    *gen.Type
+		vals []int64
+	}
+	tvs := []tv{
+		{gen.I8, []int64{-128, 127, -5, 4}}, {gen.U8, []int64{255, 4, 128}}, {gen.I16, []int64{-32768, 32767}}, {gen.U16, []int64{65535, 32768}},
+		{gen.I32, []int64{-2147483648, 2147483647, -5}}, {gen.U32, []int64{2147483648, 4294967295, 4294967296 - L, 4294967295 - 1, 2147483648 + 1}},
+		{gen.I64, []int64{4294967296, 4294967296 + 1, -4294967296, -4294967296 + 1, 2147483648, -2147483649, 1 << 62, -(1 << 62), 8589934592 + 2}},
+		{gen.U64, []int64{4294967296, 4294967296 + 3, 2147483648, 1 << 62, 4294967295}},
+	}
+	var out []c08Prog
+	for _, x := range tvs {
+		for _, v := range x.vals {
+			for _, op := range []string{"read", "write", "string"} {
+				et := gen.I32
+				dt := &gen.Type{K: gen.KDyn, Elem: et}
+				d := &gen.Var{Name: "d", T: dt}
+				idf := &gen.Func{Name: "ix", Params: []gen.Param{{Name: "k", T: x.t}}, Ret: x.t, Body: []gen.Stmt{&gen.Return{X: &gen.Var{Name: "k", T: x.t}}}}
+				prog := &gen.Program{Features: map[string]bool{}, Funcs: []*gen.Func{idf}}
+				al := &gen.ArrLit{T: dt}
+				for k := 0; k < L-1; k++ {
+					al.Elems = append(al.Elems, lit(et, int64(10*(k+1))))
+				}
+				main := []gen.Stmt{&gen.Let{Name: "d", T: dt, Init: al, Annot: true}, &gen.Append{Arr: d, Val: lit(et, 40)},
+					&gen.Let{Name: "w", T: gen.TStr, Init: &gen.Lit{T: gen.TStr, S: "abcd"}}, &gen.Print{X: &gen.Lit{T: gen.TStr, S: "before"}}}
+				ie := &gen.Call{Fn: idf, Args: []gen.Expr{lit(x.t, v)}}
+				switch op {
+				case "read":
+					main = append(main, &gen.Let{Name: "t", T: et, Init: &gen.Index{X: d, I: ie, T: et}, Annot: true}, &gen.Print{X: &gen.Var{Name: "t", T: et}})
+				case "write":
+					main = append(main, &gen.Assign{LHS: &gen.Index{X: d, I: ie, T: et}, Op: "=", RHS: lit(et, 99)})
+				default:
+					main = append(main, &gen.Let{Name: "ch", T: gen.TStr, Init: &gen.Index{X: &gen.Var{Name: "w", T: gen.TStr}, I: ie, T: gen.TStr}}, &gen.Print{X: &gen.Var{Name: "ch", T: gen.TStr}})
+				}
+				main = append(main, &gen.ForDyn{Val: "v", Arr: d, Body: []gen.Stmt{&gen.Print{X: &gen.Var{Name: "v", T: et}}}}, &gen.Print{X: &gen.Lit{T: gen.TStr, S: "end"}})
+				prog.Main = main
+				out = append(out, c08Prog{p: prog, wideIdx: true, directed: fmt.Sprintf("directed:%s:%d:%s", x.t, v, op)})
+			}
+		}
+	}
+	return out
+}
+
 func btoi(b bool) int {
 	if b {
 		return 1
@@ -333,27 +384,33 @@ func btoi(b bool) int {
 
 func checkC08(c *Ctx) error {
 	r := c.R
-	r.Rule = "every fourth program: an array of arrays with rows of different lengths (some longer than the number of rows) and a struct holding a dynamic array, read / written / measured through literal, let-bound and opaque indices on both levels; the others: histories over one dynamic array (literal of 0-5 elements, appends crossing the growth thresholds, element widths 1-8 bytes, get/set/len, final iteration) and one string, with indices that are literals, let-bound constants or returned by an opaque function, of every integer type i8..u64 that can hold the value, drawn from {-len-1,-len,-1,0,len-1,len,len+1,+-2^20, +-2^32 (+ a valid index), 2^32-1, 2^31, +-2^62} or valid for the current length; compiled for native and wasm and compared with the reference list/string model including the panic point and the lines printed before it (stdout is a file). A compile-time rejection is accepted only if the reference panics at a compile-time-known index. non-trivial = a distinct history whose verdict was decided on at least one target"
+	r.Rule = "directed: every boundary value of every index type i8..u64 (and values around 2^31 / 2^32 that alias a valid position after truncation) as an opaque index reading / writing a dynamic array and indexing a string (native); every fourth generated program: an array of arrays with rows of different lengths (some longer than the number of rows) and a struct holding a dynamic array, read / written / measured through literal, let-bound and opaque indices on both levels; the others: histories over one dynamic array (literal of 0-5 elements, appends crossing the growth thresholds, element widths 1-8 bytes, get/set/len, final iteration) and one string, with indices that are literals, let-bound constants or returned by an opaque function, of every integer type i8..u64 that can hold the value, drawn from {-len-1,-len,-1,0,len-1,len,len+1,+-2^20, +-2^32 (+ a valid index), 2^32-1, 2^31, +-2^62} or valid for the current length; compiled for native and wasm and compared with the reference list/string model including the panic point and the lines printed before it (stdout is a file). A compile-time rejection is accepted only if the reference panics at a compile-time-known index. non-trivial = a distinct history whose verdict was decided on at least one target"
 	r.Assumptions = []string{"the panic message must contain 'index out of bounds'", "string indexing prints the byte as a character"}
 	n := c.N(64, 1600)
 	runProbes(c, "C08", core.Native)
-	core.ParDo(n, 5, func(i int) {
+	directed := c08Directed()
+	core.ParDo(n+len(directed), 5, func(i int) {
 		rng := r.Rng(i)
 		var cp c08Prog
-		if i%4 == 3 {
+		if i >= n {
+			cp = directed[i-n]
+		} else if i%4 == 3 {
 			cp = c08GenerateNested(rng)
 		} else {
 			cp = c08Generate(rng, i%3 == 0)
 		}
 		src := cp.p.Source()
 		id := fmt.Sprintf("gen:%d:%d", c.Env.Seed, i)
+		if cp.directed != "" {
+			id = cp.directed
+		}
 		exp := gen.Run(cp.p)
 		if exp.Internal != "" || exp.Timeout || exp.FellOff != "" {
 			r.Fail(core.Failure{Case: id, Signature: "HARNESS generator/interpreter bug", Detail: fmt.Sprintf("%+v\n%s", exp, src), Replay: src})
 			return
 		}
 		targets := []core.Target{core.Native}
-		if i%2 == 0 && i%3 != 0 { // strings are not supported by the wasm back end
+		if i%2 == 0 && i%3 != 0 && cp.directed == "" { // strings are not supported by the wasm back end
 			targets = append(targets, core.Wasm)
 		}
 		for _, tg := range targets {
